@@ -63,10 +63,12 @@ def toHashable : Py → Option HK
   | .str s => some (.str s)
   | .list xs => (toHashableL xs).map .tup
   | .dict kvs =>
+      -- `frozenset((key, to_hashable(value)) ...)`: an object is not an array, and the order of its keys does not count
+      -- (canonical form: the pairs sorted by key, behind a marker that no array image carries)
       (toHashableK kvs).map (fun vs =>
         let ks := sortStrs (kvs.map (·.1))
-        .tup (ks.map .str ++ ks.filterMap (fun k => (vs.find? (·.1 == k)).map (·.2))))
-  | .dictNS _ => Option.none
+        .tup (.other "frozenset" :: ks.filterMap (fun k => (vs.find? (·.1 == k)).map (fun p => .tup [.str k, p.2]))))
+  | .dictNS _ => some (.other "frozenset of pairs with non-string keys (not modelled)")
   | .other c => some (.other c)
 termination_by structural d => d
 def toHashableL : List Py → Option (List HK)
